@@ -4,6 +4,7 @@ import (
 	"flag"
 	"image"
 	"image/color"
+	"math"
 	"math/rand"
 
 	"github.com/reactivego/ivg"
@@ -260,6 +261,29 @@ func driveC15(args []string) error {
 			full()
 			probe(nr, n0)
 			stats["retargeted"]++
+		}
+	}
+	// offsets astronomically far outside [0,1]: the translation is +-2^e (an even integer, exact in float32 and
+	// float64), the pixel term supplies a small dyadic part; the spread rules still decide the colour (period 2)
+	for _, e := range []int{31, 32, 33, 40, 46} {
+		for _, sg := range []float64{1, -1} {
+			for spread := 0; spread < 4; spread++ {
+				for _, a := range []float64{0.25, 0.125, -0.25} {
+					stops := []stopJ{{C: [4]int{200, 0, 0, 255}, O: f32j(0)}, {C: [4]int{0, 100, 0, 100}, O: f32j(0.5)}, {C: [4]int{0, 0, 64, 64}, O: f32j(1)}}
+					var g render.Gradient
+					var st []render.Stop
+					for _, s := range stops {
+						st = append(st, render.Stop{Offset: float64(s.O.float()), RGBA64: color.RGBA64{uint16(s.C[0]) * 0x101, uint16(s.C[1]) * 0x101, uint16(s.C[2]) * 0x101, uint16(s.C[3]) * 0x101}})
+					}
+					aff := render.Aff3{a, 0.0625, sg * math.Ldexp(1, e), 0, 1, 0}
+					if g.Init(render.ShapeLinear, render.Spread(spread), aff, st) {
+						for x := -6; x <= 14; x++ {
+							emitPix("Gradient.Init/far", &g, &g, stops, x, x%3)
+						}
+						stats["far"]++
+					}
+				}
+			}
 		}
 	}
 	nEv, err := sh.Close()
